@@ -27,3 +27,19 @@ func verifRoundTripTimeoutCert(tc hotstuff.TimeoutCert) hotstuff.TimeoutCert {
 func verifRoundTripBlock(block *hotstuff.Block) *hotstuff.Block {
 	return BlockFromProto(BlockToProto(block))
 }
+
+func verifRoundTripAggregateQC(aggQC hotstuff.AggregateQC) hotstuff.AggregateQC {
+	return AggregateQCFromProto(AggregateQCToProto(aggQC))
+}
+
+func verifRoundTripSyncInfo(si hotstuff.SyncInfo) hotstuff.SyncInfo {
+	return SyncInfoFromProto(SyncInfoToProto(si))
+}
+
+func verifRoundTripTimeoutMsg(m hotstuff.TimeoutMsg) hotstuff.TimeoutMsg {
+	return TimeoutMsgFromProto(TimeoutMsgToProto(m))
+}
+
+func verifRoundTripProposal(p hotstuff.ProposeMsg) hotstuff.ProposeMsg {
+	return ProposalFromProto(ProposalToProto(p))
+}
